@@ -4,7 +4,7 @@
 src="$1"; name="$2"; shift; shift
 dir=/tmp/mut/seed_$name
 rm -rf "$dir"; mkdir -p /tmp/mut
-git -C /repo worktree add --detach -f "$dir" HEAD >/dev/null 2>&1 || { echo "worktree failed"; exit 2; }
+git -C /repo worktree add --detach -f "$dir" "${SEED_BASE:-HEAD}" >/dev/null 2>&1 || { echo "worktree failed"; exit 2; }
 (cd "$dir" && timeout 120 /venv/bin/python "$src/demo.py" >/dev/null 2>&1); echo "demo without change: exit=$?"
 git -C "$dir" apply "$src/patch.diff" || { echo "apply failed"; git -C /repo worktree remove --force "$dir"; exit 2; }
 git -C "$dir" diff --stat | tail -1
